@@ -377,6 +377,10 @@ def _pinned_moments():
             for order in range(1 if t == "pure-radial" else 0, 7):
                 k += 1
                 out.append({"type": t, "d": d, "n": 7, "dseed": 1000 + k, "scale": 1.0, "wmode": "signed", "cmodes": ["rand", "gridpoint", "origin"], "order": order, "np_int": bool(k % 2)})
+    # molecular-grid sizes: every point counts, also when there are more than 2^19 of them and their number is not a
+    # multiple of any block size (generated grids have at most 24 points)
+    for t, order, n in (("cartesian", 1, 600011), ("radial", 2, 524288 + 7), ("pure", 1, 300007)):
+        out.append({"type": t, "d": 3, "n": n, "dseed": 77, "scale": 1.0, "wmode": "signed", "cmodes": ["rand"], "order": order, "np_int": False, "axis_pts": []})
     return out
 
 
